@@ -5,6 +5,7 @@ import (
 	"fmt"
 	"hash/fnv"
 	"math/rand"
+	"net"
 	"os"
 	"path/filepath"
 	"sort"
@@ -833,6 +834,19 @@ func RunSession(spec *SessSpec) *Trace {
 		return tr
 	}
 	s.full = full
+	if tr.APIPort != 0 {
+		// the client signals readiness before its API server is necessarily accepting connections: the script talks to it
+		// only once it does (bounded; a server that never comes up shows as failing requests in the steps)
+		hx.WaitFor(3*time.Second, func() bool {
+			c, err := net.DialTimeout("tcp", fmt.Sprintf("127.0.0.1:%d", tr.APIPort), 200*time.Millisecond)
+			if err != nil {
+				return false
+			}
+			c.Close()
+			return true
+		})
+		env.Log.Add(evlog.Rec{K: "ctl.api.up", VB: -1})
+	}
 	closed := false
 	for _, st := range spec.Steps {
 		switch st.Op {
